@@ -4,11 +4,11 @@ out=$1
 wt=$(mktemp -d /tmp/vseed.XXXX)
 rmdir $wt
 git -C /repo worktree add -q --detach $wt HEAD || exit 9
-trap "git -C /repo worktree remove --force $wt" EXIT
+trap "git -C /repo worktree remove --force $wt; rm -f $wt.demo_with.log $wt.demo_without.log" EXIT
 cd $wt
 git apply $out/patch.diff || { echo "PATCH-DOES-NOT-APPLY"; exit 8; }
 echo "files: $(git diff --stat | tail -1)"
 echo "suite(with change): $(/venv/bin/python -m pytest -q -p no:cacheprovider --timeout=900 --continue-on-collection-errors 2>&1 | tail -1)"
-PYTHONPATH=$wt /venv/bin/python $out/demo.py > /tmp/demo_with.log 2>&1; echo "demo(with change) exit=$? :: $(tail -2 /tmp/demo_with.log | tr '\n' ' ' | cut -c1-200)"
+PYTHONPATH=$wt /venv/bin/python $out/demo.py > $wt.demo_with.log 2>&1; echo "demo(with change) exit=$? :: $(tail -2 $wt.demo_with.log | tr '\n' ' ' | cut -c1-200)"
 git apply -R $out/patch.diff
-PYTHONPATH=$wt /venv/bin/python $out/demo.py > /tmp/demo_without.log 2>&1; echo "demo(without) exit=$? :: $(tail -1 /tmp/demo_without.log | cut -c1-120)"
+PYTHONPATH=$wt /venv/bin/python $out/demo.py > $wt.demo_without.log 2>&1; echo "demo(without) exit=$? :: $(tail -1 $wt.demo_without.log | cut -c1-120)"
